@@ -4,12 +4,97 @@ import nodecheck
 PROFILE = dict(outbound=0.3)
 W = nodecheck.weights(stray_answer=4, bad_request=4, burst=2)
 N_QUICK, N_THOROUGH, LENGTH = 60, 1500, 18
-THEMES = (("ready", 2, 60, 2, 3000), ("answers", 300, 0, None, 0), ("partial_reads", None, 0, None, 0), ("handshake_in", 1, 20, 2, 200))
-FILES = ["Props/C07.v"]
+THEMES = (("ready", 2, 60, 2, 3000), ("answers", 300, 0, None, 0), ("answers_only", None, 0, None, 0), ("partial_reads", None, 0, None, 0), ("handshake_in", 1, 20, 2, 200))
+# "exactly one answer" on the wire also rests on the write path handing every queued answer to the socket exactly once: the
+# write path's translated thread programs (Link/LinkWrite.v) are an obligation here as well
+FILES = ["Link/LinkWrite.v", "Props/C07.v"]
+
+
+def _write_path_search(run):
+    """failing-input search when the write-path tie (or anything else) broke without an oracle failing: the C15 schedule
+    exploration (queued answers vs bytes handed to the socket, every interleaving with <= 2 pre-emptions)"""
+    import errno
+    from props import c15
+    for spec in (dict(messages=[(0, True), (3, True), (0, True)], threads=[[0, 1, 2]], sends=[5, ("err", errno.EAGAIN), 30, "all"]),
+                 dict(messages=[(3, True), (0, True), (40, True)], threads=[[0], [1], [2]], sends=[20, 21, "all"])):
+        before = len(run.violations)
+        c15.explore(run, spec, 2, 400)
+        for v in run.violations[before:]:
+            v["what"] = "answers queued on one connection reach the socket duplicated / damaged: " + (v.get("what") or "")
+        if run.violations:
+            break
+
+
+
+def sync_handlers(run):
+    """Applications that answer from INSIDE their request handler (the plain Application's way), with the kinds of answer
+    an application may build: the macro-step model has the answer as a separate event, so this is judged on the
+    implementation: one answer per request on the wire, the handler's, and no worker ends."""
+    import nodesim as NS
+    from vsim import Sim
+    from diameter.message.avp.grouped import ExperimentalResult
+    for shape in ("result-code", "experimental-result only", "error bit", "no result at all"):
+        sim = Sim(seed=1, t0=NS.T0)
+        try:
+            sim.script_random([77, 12345])
+            node = sim.node_mod.Node("srv.example.net", "example.net", ip_addresses=["10.0.0.1"], tcp_port=3868)
+            failures = []
+
+            class App(sim.app_mod.Application):
+                def handle_request(self, message):
+                    a = self.generate_answer(message)
+                    if shape == "result-code":
+                        a.result_code = 2001
+                    elif shape == "experimental-result only":
+                        a.result_code = None
+                        a.experimental_result = ExperimentalResult(vendor_id=10415, experimental_result_code=5001)
+                    elif shape == "error bit":
+                        a.result_code = 3004
+                        a.header.is_error = True
+                    else:
+                        a.result_code = None
+                    try:
+                        self.send_answer(a)
+                    except Exception as e:   # noqa
+                        failures.append(f"{type(e).__name__}: {e}")
+                        raise
+            app = App(4, is_auth_application=True)
+            node.add_application(app, [node.add_peer("aaa://cli0.example.net", "example.net")])
+            node.start()
+            sim.run()
+            sim.script_random([1000])
+            r = sim.connect_in()
+            sim.run()
+            r.feed(NS.build_message(dict(kind="cer", host="cli0.example.net", hbh=1, e2e=1)))
+            sim.run()
+            r.take_messages()
+            for k in range(3):
+                r.feed(NS.build_message(dict(kind="req", hbh=0x50 + k, e2e=0x60 + k, host="cli0.example.net")))
+                sim.run()
+            sim.advance(1)
+            got = [(m.header.hop_by_hop_identifier, getattr(m, "result_code", None)) for m in r.take_messages() if not m.header.is_request]
+            run.count(1, [("sync-handler", shape)])
+            per = {h: [rc for hh, rc in got if hh == h] for h in (0x50, 0x51, 0x52)}
+            want_rc = {"result-code": 2001, "error bit": 3004}.get(shape)
+            if any(v != [want_rc] for v in per.values()) or failures or sim.thread_deaths:
+                run.violation("exactly-one-answer", {"scenario": "handler answers inside handle_request", "answer_shape": shape},
+                              {"answers_per_request": {hex(h): v for h, v in per.items()}, "send_answer_failures": failures[:2],
+                               "deaths": [str(d)[:80] for d in sim.thread_deaths]},
+                              "one answer per request (the handler's), send_answer returns normally",
+                              what="a request answered from inside its handler got " + ", ".join(str(len(v)) for v in per.values()) + " answers")
+        finally:
+            sim.shutdown()
 
 
 def check(run):
-    return nodecheck.run(run, "C07", FILES, PROFILE, W, N_QUICK, N_THOROUGH, LENGTH, themes=THEMES)
+    orig_obligations = run.obligations
+
+    def obligations_then_more(files):
+        out = orig_obligations(files)
+        sync_handlers(run)
+        return out
+    run.obligations = obligations_then_more
+    return nodecheck.run(run, "C07", FILES, PROFILE, W, N_QUICK, N_THOROUGH, LENGTH, themes=THEMES, on_broken=_write_path_search)
 
 
 replay = nodecheck.replay_generic
